@@ -70,6 +70,11 @@ type c12 struct {
 }
 
 func newC12(t *testing.T, rng *rand.Rand, rec *sim.Rec, rto time.Duration) *c12 {
+	c12RespCode = 0
+	if rng.Intn(4) == 0 {
+		c12RespCode = pick(rng, []int{300, 400, 401, 420, 437, 438, 486, 500, 508, 599, 699})
+		rec.FP("answers-are-error-responses/%d", c12RespCode/100)
+	}
 	n := simnet.New()
 	// the transaction's destination is the configured TURN/STUN server or (1 in 3) some other
 	// address, as with SendBindingRequestTo or a separate STUN server: every transmission of a
@@ -111,7 +116,18 @@ func (x *c12) request() (*stun.Message, [12]byte) {
 	return msg, msg.TransactionID
 }
 
+// c12RespCode, when not 0, makes the scripted answers error responses with that code: an error
+// response completes a transaction exactly as a success response does.
+var c12RespCode int
+
 func response(tid [12]byte, tag string) []byte {
+	if c12RespCode != 0 {
+		b := wire.NewBuilder(wire.MethodBinding, wire.ClassError, tid)
+		b.Add(wire.AttrErrorCode, append([]byte{0, 0, byte(c12RespCode / 100), byte(c12RespCode % 100)}, []byte("scripted")...))
+		b.Add(wire.AttrSoftware, []byte(tag))
+
+		return b.Bytes()
+	}
 	b := wire.NewBuilder(wire.MethodBinding, wire.ClassSuccess, tid)
 	b.AddXorAddr(wire.AttrXORMappedAddress, net.IPv4(10, 1, 0, 1).To4(), 5000)
 	b.Add(wire.AttrSoftware, []byte(tag))
